@@ -46,8 +46,13 @@ finally:
 # 2. the check against /repo with the patch applied (exclusive use of /repo), undone straight afterwards
 import fcntl
 
+open("/tmp/verif_seed_pending", "w").close()  # checks of the unchanged tree that have not started yet wait for this evaluation
 with open("/tmp/verif_repo.lock", "w") as lock:
     fcntl.flock(lock, fcntl.LOCK_EX)
+    try:
+        os.remove("/tmp/verif_seed_pending")
+    except OSError:
+        pass
     assert sh("git -C /repo diff --quiet").returncode == 0, "repo dirty"
     ap = sh(f"git -C /repo apply {dst}/patch.diff")
     assert ap.returncode == 0, ap.stderr
